@@ -24,7 +24,7 @@ EXPLANATION = (
     "C08.d: no in-place store below _perform_timestep targets the weather matrix or a numpy view of it (slices and "
     "boolean-mask selections are distinguished by the view/copy table), so every season reads the weather the single-season run reads. "
     "C08.e: the thermal-time calendar of a SwitchGDD crop must not be an aggregate over the seasons of the window (reported: prepare_gdd's "
-    "mean / median over all seasons - known finding F19, the documented behaviour of the conversion). C08.f (sibling agreement): the CO2 adjustment is computed by compute_variables for the first season and by the season reset for later ones; the defining expressions of its seven quantities are the same sets. C08.b also: the snapshot thini is taken from the final initial profile - no store to the water content (rebinding or in place) follows it in the initial-conditions routine (the groundwater adjustments come first). C08.g: the season reset reads the season's CO2 concentration from the yearly series by label (the year of the clock's step start), never by position - the series starts with the year of the simulation start, the seasons with the first planting date on or after it. C08.h: the ponding restored at a season start is computed from the in-season field management (access path), as in the initial conditions of a run that starts in season 0. C08.i: a latest harvest date derived from the first season's days to maturity while the days to maturity of thermal-time crops are re-derived per season (reported: known finding F43). C08.j (sibling agreement): the crop parameters derived from the season's calendar by a calculate_* routine (harvest-index growth coefficient, linear switch point and rate) are assigned the same expressions under the same crop-type tests by compute_variables (first season) and by the season reset (later seasons of thermal-time crops). C08.k (= C05.c): the four implementations of the degree-day formula (daily step, initialisation, season reset, SwitchGDD preparation) apply the same clamps per method. NOT decided: bitwise equality of the two runs.")
+    "mean / median over all seasons - known finding F19, the documented behaviour of the conversion). C08.f (sibling agreement): the CO2 adjustment is computed by compute_variables for the first season and by the season reset for later ones; the defining expressions of its seven quantities are the same sets. C08.b also: the snapshot thini is taken from the final initial profile - no store to the water content (rebinding or in place) follows it in the initial-conditions routine (the groundwater adjustments come first). C08.g: the season reset reads the season's CO2 concentration from the yearly series by label (the year of the clock's step start), never by position - the series starts with the year of the simulation start, the seasons with the first planting date on or after it. C08.h: the ponding restored at a season start is computed from the in-season field management (access path), as in the initial conditions of a run that starts in season 0. C08.i: a latest harvest date derived from the first season's days to maturity while the days to maturity of thermal-time crops are re-derived per season (reported: known finding F43). C08.j (sibling agreement): the crop parameters derived from the season's calendar by a calculate_* routine (harvest-index growth coefficient, linear switch point and rate) are assigned the same expressions under the same crop-type tests by compute_variables (first season) and by the season reset (later seasons of thermal-time crops). C08.k (= C05.c): the four implementations of the degree-day formula (daily step, initialisation, season reset, SwitchGDD preparation) apply the same clamps per method. C08.l (= C14.k): while stepping, the per-season date tables of the clock are read only at the season counter (or counter + 1) - never at an index derived from the number of seasons, a constant or the end of the table, which would take one season's calendar from another season's dates. NOT decided: bitwise equality of the two runs.")
 
 L = frozenset
 ST = ("state",)
@@ -550,6 +550,8 @@ def run(chk, prog, tier):
     # of the first season's initialisation and of the daily step (a season converted with another formula differs from the single-season run)
     from ._siblings import gdd_clamp_agreement
     gdd_clamp_agreement(chk, prog, "C08.k")
+    from ._siblings import season_table_index
+    season_table_index(chk, prog, "C08.l")
     from ._siblings import derived_crop_params_agreement
     chk.floor("C08.j", derived_crop_params_agreement(chk, prog, "C08.j"), 2, "calendar-derived crop parameters compared")
     from ._siblings import co2_series_rules
